@@ -1752,7 +1752,7 @@ def c13():
     for p in ok:
         for k, c in enumerate(p.cases):
             sc = c["sched"]
-            special = len(sc["insts"]) > 2 or any("failat" in i or i.get("sharedopts") for i in sc["insts"]) or sc["schedule"][0][1] > 9000
+            special = len(sc["insts"]) > 2 or any("failat" in i or i.get("sharedopts") for i in sc["insts"]) or (len(sc["schedule"]) > 0 and sc["schedule"][0][1] > 9000)
             sc["repeat"] = bool(q or special or k % 5 == 0)
     ck.cov["cases_with_repeated_solo_runs"] = sum(1 for p in ok for c in p.cases if c["sched"]["repeat"])
     run_programs(ok, "c13base", timeout=7200, env_extra={"VERIF_GOMAXPROCS": "1", "VERIF_SCHED_PHASE": "baseline"}, drop=False)
